@@ -16,6 +16,7 @@ import (
 	"fmt"
 	"strconv"
 	"strings"
+	"time"
 
 	"github.com/blinklabs-io/gouroboros/cbor"
 	"github.com/blinklabs-io/gouroboros/ledger/allegra"
@@ -31,7 +32,7 @@ import (
 )
 
 func init() {
-	register(&Prop{ID: "C28", Gen: genC28, Run: runC28})
+	register(&Prop{ID: "C28", Gen: genC28, Run: runC28, Timeout: 3 * time.Minute})
 }
 
 func c28Key(useed []byte, k int) ed25519.PrivateKey {
